@@ -11,11 +11,11 @@ ADD = {
     "C02": "generators with unused / repeated coordinates never thinned + a zero-padded family (all 2ⁿ words); Berlekamp–Massey on BCH codes of any dimension, GF(32)/GF(64) with δ≤11 in the quick tier",
     "C03": "named standard codes advertise (n,k) in their name; `factories`: the code behind a name is the same before / after overriding calls and the other names",
     "C04": "restored-from-state_dict encoders; the long and zero-padded catalogue entries; quick also GF(32)/GF(64) BCH",
-    "C06": "exact tie points; received points and noise-variance tensors compared with clones after every soft call",
-    "C07": "signals with exact zeros (on-off, burst, sparse); ONE channel object serving real / complex signals, 3 shapes and 3 powers in turn",
-    "C08": "factories independent of each other",
-    "C09": "long BCH links (μ=5..8) and long RM links RM(0..1,6..8) with exactly t flips over BPSK; π/4-QPSK chains: 8 pairs × eval/train × 45 transmissions through the same modem objects",
-    "C10": "magnitudes 1e-30…1e20; normalized / scaling / offset option sets",
+    "C06": "exact tie points and probes 1e-4 / 1e-5 dmin from every boundary; received points and noise-variance tensors compared with clones after every soft call",
+    "C07": "signals with exact zeros (on-off, burst, sparse); ONE channel object serving real / complex signals, 3 shapes and 3 powers in turn; the extreme answers of the generators (uniform 0, 2⁻²⁴, 1−2⁻²⁴, normal ±5.4σ) give finite noise",
+    "C08": "factories independent of each other; peak limits 0.01 … 37 (dyadic and not)",
+    "C09": "long BCH links (μ=5..8) and long RM links RM(0..1,6..8) with exactly t flips over BPSK; π/4-QPSK chains: 8 pairs × eval/train × 45 transmissions through the same modem objects; every soft link also at noise variance 50 and 1e-3; min-sum pairs with normalized / scaling+offset options",
+    "C10": "magnitudes 1e-30…1e20; normalized / scaling / offset option sets; circulant (3,6)- and (5,10)-regular graphs (cycles, n=12/24) at 10 / 60 / 200 [400] iterations",
     "C11": "SC and BP on every user-supplied mask (N≤8); SC rule at N=256..1024 with dyadic magnitudes; mask overwritten by the caller after construction",
     "C12": "module casts / eval / deepcopy keep the law; uint8 / int8 / int32 inputs",
     "C13": "noise configured by power (4 powers × patterns × shapes × scales); supplied signal / csi tensors compared with clones; one input of 2²⁴+4099 samples",
@@ -24,10 +24,11 @@ ADD = {
     "C16": "every pair of ≤4 bits in every layout incl. one complex symbol as 0-d / (1,) / (1,1): one-shot = exact = streaming",
     "C17": "BranchingModel histories (add / remove / get / default / run) BFS depth 5 [7] against an ordered-dictionary model; state key = canonical state + set of operations applied; feedback round count independent of the data (transparent / zero / lossless-from-round-2 links)",
     "C18": "field-level accessors (minimal-polynomial table, element list, zero / one, conversions, equality / hash); elements from two FiniteBifield(m) calls combine, m=1..16",
-    "C19": "compressing (sign-changing) and saturating nonlinear characteristics in 3 complex modes; fading with coherence time 5 / 100 (not dividing / exceeding the word)",
-    "C20": "early-stopping polar BP members (both regimes) with noisy words that converge early / late / never",
+    "C19": "compressing (sign-changing) and saturating nonlinear characteristics in 3 complex modes; fading with coherence time 5 / 100 (not dividing / exceeding the word); 0 dB among the SNR values",
+    "C20": "early-stopping polar BP members (both regimes) with noisy words that converge early / late / never; rows that are proper fractions of a block must be declined",
 }
 MARK = " **Since wave 8:** "
+TAIL = "; `lifecycle` case (§11 intro)"
 
 
 def walls(path):
@@ -56,7 +57,9 @@ def main():
             continue
         pid, eng, what, timing, dev = m.groups()
         if pid in ADD:
-            what = what.split(MARK)[0] + MARK + ADD[pid]
+            what = what.split(MARK)[0] + MARK + ADD[pid] + TAIL
+        elif TAIL not in what:
+            what = what + TAIL
         if pid in q and pid in t:
             timing = f"{fmt(q[pid][0])} [{fmt(t[pid][0])}]"
         elif pid in q:
